@@ -1,766 +1,17 @@
-(* Proofs about the composed Alephium pipeline (model.AlphPipeline):
-   1. the abstraction onto model.AlphWatcher commutes with every function and every step (simulation), so that the theorems
-      of C08 / C09 about the abstract watcher hold for the composed one;
-   2. the pipeline's own invariant: every event it holds carries exactly the conversion of its raw fields, every message it
-      hands over is toMessagePublication of that conversion with the header of its block (end-to-end fidelity);
-   3. per-event independence through the conversion step with the real rejection predicate, partition of the stream;
-   4. attestations: what is forwarded decodes to what GetTokenInfo made of the token contract's answer. *)
+(* C09 for the composed pipeline (model.AlphPipeline): per-event independence through the conversion step with the REAL
+   rejection predicate (`unfit`: wrong event index, or ToWormholeMessage rejects the raw fields), the page is never aborted,
+   GetTokenInfo never panics on raw answers, and the raw stream is partitioned into batches exactly once (composition with
+   C09's partition theorem through the simulation).  Depends on the extracted page-loop exit test, the treatment of
+   unconvertible events and the nil tests of GetTokenInfo (as AlphWatcherProofs does); the guard-independent part is in
+   AlphPipelineBase. *)
 From Coq Require Import List ZArith Bool Lia Arith.
 From Coq Require Import Strings.Byte.
-From WH Require Import lib.Bytes gen.Extracted gen.ExtractedAlphPipe model.Vaa model.AlphPipeline.
-From WH Require model.AlphConv model.AlphWatcher proofs.AlphConvProofs proofs.AlphWatcherBase proofs.AlphWatcherSafety proofs.AlphWatcherProofs.
+From WH Require Import lib.Bytes gen.Extracted gen.ExtractedAlphPipe model.Vaa model.AlphPipeline proofs.AlphPipelineRead proofs.AlphPipelineBase.
+From WH Require model.AlphConv model.AlphWatcher proofs.AlphConvProofs proofs.AlphWatcherBase proofs.AlphWatcherProofs.
 Import ListNotations.
 Open Scope Z_scope.
 
-From Coq Require Strings.String.
-Module CP := AlphConvProofs.
-(* the type strings of sdk.Val (string literals need String's notation, kept local to this module) *)
-Module Ty. Import Coq.Strings.String. Definition bytevec : bytes := C.str "ByteVec". Definition u256 : bytes := C.str "U256". End Ty.
-Module WB := AlphWatcherBase.
-Module WS := AlphWatcherSafety.
 Module WP := AlphWatcherProofs.
-
-(* ================================================================== 0. the encodings of byte strings are injective *)
-Lemma unbe_acc_split : forall l acc, unbe_acc l acc = acc * 256 ^ Z.of_nat (length l) + unbe l.
-Proof.
-  induction l as [|b l IH]; intro acc.
-  - unfold unbe. cbn. lia.
-  - unfold unbe. cbn [unbe_acc length]. rewrite (IH (acc * 256 + Z_of_byte b)), (IH (0 * 256 + Z_of_byte b)).
-    rewrite Nat2Z.inj_succ, Z.pow_succ_r by lia. ring.
-Qed.
-
-Lemma enc_split : forall b, enc b = 256 ^ Z.of_nat (length b) + unbe b.
-Proof.
-  intro b. unfold enc. unfold unbe at 1. cbn [unbe_acc]. rewrite unbe_acc_split. change (Z_of_byte x01) with 1. ring.
-Qed.
-
-Lemma enc_pos : forall b, 1 <= enc b.
-Proof. intro b. rewrite enc_split. pose proof (unbe_nonneg b). assert (0 < 256 ^ Z.of_nat (length b)) by (apply Z.pow_pos_nonneg; lia). lia. Qed.
-
-Lemma enc_inj : forall a b, enc a = enc b -> a = b.
-Proof.
-  intros a b H. rewrite !enc_split in H.
-  pose proof (unbe_nonneg a) as A0. pose proof (unbe_bound a) as A1. pose proof (unbe_nonneg b) as B0. pose proof (unbe_bound b) as B1.
-  assert (L : length a = length b).
-  { destruct (lt_eq_lt_dec (length a) (length b)) as [[Hl|He]|Hl]; [exfalso|exact He|exfalso].
-    - assert (256 ^ Z.of_nat (S (length a)) <= 256 ^ Z.of_nat (length b)) by (apply Z.pow_le_mono_r; lia).
-      rewrite Nat2Z.inj_succ, Z.pow_succ_r in * by lia. lia.
-    - assert (256 ^ Z.of_nat (S (length b)) <= 256 ^ Z.of_nat (length a)) by (apply Z.pow_le_mono_r; lia).
-      rewrite Nat2Z.inj_succ, Z.pow_succ_r in * by lia. lia. }
-  rewrite L in H. assert (U : unbe a = unbe b) by lia.
-  rewrite <- (be_unbe a), <- (be_unbe b), L, U. reflexivity.
-Qed.
-
-Lemma enc_id_inj : forall a b, enc_id a = enc_id b -> a = b.
-Proof.
-  intros a b. unfold enc_id, W.alph_native_id. pose proof (enc_pos a) as Pa. pose proof (enc_pos b) as Pb.
-  destruct (bytes_eqb_spec a alph_token_id) as [->|Na]; destruct (bytes_eqb_spec b alph_token_id) as [->|Nb]; intro H; try lia; [reflexivity|].
-  apply enc_inj. lia.
-Qed.
-
-Lemma native_strings_differ : alph_native_symbol <> alph_native_name.
-Proof. intro H. assert (E : bytes_eqb alph_native_symbol alph_native_name = true) by (apply bytes_eqb_eq; exact H). vm_compute in E. discriminate E. Qed.
-
-Lemma enc_str_inj : forall a b, enc_str a = enc_str b -> a = b.
-Proof.
-  intros a b. unfold enc_str, W.alph_native_sym, W.alph_native_name. pose proof (enc_pos a) as Pa. pose proof (enc_pos b) as Pb.
-  destruct (bytes_eqb_spec a alph_native_symbol) as [->|Na]; destruct (bytes_eqb_spec b alph_native_symbol) as [->|Nb];
-    destruct (bytes_eqb_spec alph_native_symbol alph_native_name) as [E|_]; try (exfalso; exact (native_strings_differ E));
-    try destruct (bytes_eqb_spec a alph_native_name) as [->|Na2]; try destruct (bytes_eqb_spec b alph_native_name) as [->|Nb2];
-    intro H; try lia; try reflexivity.
-  apply enc_inj. lia.
-Qed.
-
-Lemma enc_id_eqb : forall a b, (enc_id a =? enc_id b) = bytes_eqb a b.
-Proof.
-  intros a b. destruct (bytes_eqb_spec a b) as [->|N]; [apply Z.eqb_refl|]. apply Z.eqb_neq. intro H. apply N. apply enc_id_inj. exact H.
-Qed.
-Lemma enc_str_eqb : forall a b, (enc_str a =? enc_str b) = bytes_eqb a b.
-Proof.
-  intros a b. destruct (bytes_eqb_spec a b) as [->|N]; [apply Z.eqb_refl|]. apply Z.eqb_neq. intro H. apply N. apply enc_str_inj. exact H.
-Qed.
-
-Lemma abs_tok_inj : forall a b, abs_tok a = abs_tok b -> a = b.
-Proof.
-  intros [a1 a2 a3 a4] [b1 b2 b3 b4]. unfold abs_tok. cbn [C.t_id C.t_decimals C.t_symbol C.t_name]. intro H. injection H as H1 H2 H3 H4.
-  apply enc_id_inj in H1. apply enc_str_inj in H3, H4. subst. reflexivity.
-Qed.
-
-(* ================================================================== 1. simulation: GetTokenInfo / validateAttestToken *)
-Definition abs_ti (r : xti_res) : W.ti_res := match r with XTiOk t => W.TiOk (abs_tok t) | XTiErr => W.TiErr | XTiPanic => W.TiPanic end.
-Definition abs_va (r : xva_res) : W.va_res := match r with XVaOk t => W.VaOk (abs_tok t) | XVaReject => W.VaReject | XVaPanic => W.VaPanic end.
-Definition abs_shape (s : xshape) : W.shape := match s with XShErr => W.ShErr | XShPanic => W.ShPanic | XShOne v => W.ShOne (abs_val v) end.
-
-Lemma abs_native : abs_tok native_info =
-  {| W.ti_id := W.alph_native_id; W.ti_dec := alph_native_decimals; W.ti_sym := W.alph_native_sym; W.ti_name := W.alph_native_name |}.
-Proof. vm_compute. reflexivity. Qed.
-
-Lemma nth_abs_call : forall rs i, nth i (map abs_call rs) W.CFailed = abs_call (nth i rs XFailed).
-Proof. intros rs i. change W.CFailed with (abs_call XFailed). apply map_nth. Qed.
-
-Lemma sim_shape_test : forall rs t i, W.shape_test (map abs_call rs) t i = abs_shape (xshape_test rs t i).
-Proof.
-  intros rs t i. unfold W.shape_test, xshape_test. rewrite !nth_abs_call.
-  destruct (nth t rs XFailed) as [|rt]; cbn [abs_call W.succeeded xsucceeded negb]; [reflexivity|].
-  destruct (nth i rs XFailed) as [|[|v [|v' r]]]; reflexivity.
-Qed.
-
-Lemma sim_to_bytevec : forall v, W.to_bytevec (abs_val v) = match C.to_bytevec v with C.COk b => Some (enc_str (C.bytes_to_string b)) | C.CErr _ => None end.
-Proof. intro v. destruct v as [| |ty s|ty s]; reflexivity. Qed.
-
-Lemma sim_to_uint8 : forall v, W.to_uint8 (abs_val v) = match C.to_uint8 v with C.COk d => Some d | C.CErr _ => None end.
-Proof. intro v. destruct v as [| |ty s|ty s]; reflexivity. Qed.
-
-Lemma sim_get_token_info : forall id a, W.get_token_info (enc_id id) (abs_ans a) = abs_ti (xget_token_info id a).
-Proof.
-  intros id a. unfold W.get_token_info, xget_token_info.
-  change W.alph_native_id with (enc_id alph_token_id). rewrite enc_id_eqb.
-  destruct (bytes_eqb id alph_token_id) eqn:E.
-  - cbn [abs_ti]. rewrite abs_native. reflexivity.
-  - destruct a as [|rs]; [reflexivity|]. cbn [abs_ans]. rewrite map_length.
-    destruct (negb (Nat.eqb (length rs) 3)); [reflexivity|].
-    destruct alph_tokinfo_tests as [[t0 t1] t2]. rewrite !sim_shape_test.
-    destruct (xshape_test rs t0 0) as [| |vs]; try reflexivity. cbn [abs_shape].
-    destruct (xshape_test rs t1 1) as [| |vn]; try reflexivity. cbn [abs_shape].
-    destruct (xshape_test rs t2 2) as [| |vd]; try reflexivity. cbn [abs_shape].
-    rewrite !sim_to_bytevec, sim_to_uint8.
-    destruct (C.to_bytevec vs) as [sb|]; [|reflexivity]. destruct (C.to_bytevec vn) as [nb|]; [|reflexivity].
-    destruct (C.to_uint8 vd) as [d|]; reflexivity.
-Qed.
-
-Lemma attest_cmp_all : alph_pipe_attest_cmp = (true, true, true, true).
-Proof. reflexivity. Qed.
-
-Lemma xtokinfo_eqb_eq : forall a b, xtokinfo_eqb a b = true <-> a = b.
-Proof.
-  intros [a1 a2 a3 a4] [b1 b2 b3 b4]. unfold xtokinfo_eqb. rewrite attest_cmp_all. cbn [implb C.t_id C.t_decimals C.t_symbol C.t_name].
-  rewrite !andb_true_iff, !bytes_eqb_eq, Z.eqb_eq. split.
-  - intros [[[-> ->] ->] ->]. reflexivity.
-  - intro H. injection H as -> -> -> ->. auto.
-Qed.
-
-Lemma sim_tokinfo_eqb : forall a b, W.tokinfo_eqb (abs_tok a) (abs_tok b) = xtokinfo_eqb a b.
-Proof.
-  intros a b. unfold W.tokinfo_eqb, xtokinfo_eqb, abs_tok. rewrite attest_cmp_all. cbn [implb W.ti_id W.ti_dec W.ti_sym W.ti_name].
-  rewrite enc_id_eqb, !enc_str_eqb. reflexivity.
-Qed.
-
-Lemma sim_validate_attest : forall w a, W.validate_attest (abs_msg w) (abs_ans a) = abs_va (xvalidate_attest w a).
-Proof.
-  intros w a. unfold W.validate_attest, xvalidate_attest, abs_msg. cbn [W.m_tok].
-  destruct (C.parse_attest_token (C.w_payload w)) as [ti|]; [|reflexivity].
-  change (W.ti_id (abs_tok ti)) with (enc_id (C.t_id ti)). rewrite sim_get_token_info.
-  destruct (xget_token_info (C.t_id ti) a) as [t| |]; cbn [abs_ti]; try reflexivity.
-  rewrite sim_tokinfo_eqb. destruct (xtokinfo_eqb ti t); reflexivity.
-Qed.
-
-Lemma sim_is_attest : forall w, W.is_attest (abs_msg w) = xis_attest w.
-Proof. reflexivity. Qed.
-Lemma sim_is_transfer : forall w, W.is_transfer (abs_msg w) = xis_transfer w.
-Proof. reflexivity. Qed.
-Lemma sim_confirmed : forall mn w h now height, W.confirmed mn (abs_msg w) h now height = xconfirmed mn w h now height.
-Proof. reflexivity. Qed.
-
-(* ================================================================== 1b. simulation: the polling path *)
-Definition abs_cls (c : xcls) : W.cls := match c with XKeep u => W.Keep (abs_u u) | XSkip => W.Skip | XAbort => W.Abort | XPanic => W.Panic end.
-Definition abs_hu (r : xhu_res) : W.hu_res := match r with XHuOk l => W.HuOk (map abs_u l) | XHuAbort => W.HuAbort | XHuPanic => W.HuPanic end.
-Definition abs_poll (r : xpoll_res) : W.poll_res :=
-  match r with XPIdle => W.PIdle | XPBatch f b n => W.PBatch f (map abs_u b) n | XPFatal => W.PFatal | XPSpin => W.PSpin | XPPanic => W.PPanic end.
-Definition abs_tok_fn (tok : Z -> xmc_ans) : Z -> W.mc_ans := fun i => abs_ans (tok i).
-Definition abs_pg (pg : nat -> Z -> xpage_ans) : nat -> Z -> W.page_ans := fun k s => abs_page (pg k s).
-
-Lemma sim_to_unconfirmed : forall e, W.to_unconfirmed (abs_event e) = option_map abs_msg (xto_unconfirmed e).
-Proof.
-  intro e. unfold W.to_unconfirmed, xto_unconfirmed, abs_event. cbn [W.e_index W.e_conv].
-  destruct (x_index e =? alph_wm_event_index); reflexivity.
-Qed.
-
-Lemma sim_classify : forall a e, W.classify (abs_ans a) (abs_event e) = abs_cls (xclassify a e).
-Proof.
-  intros a e. unfold W.classify, xclassify. rewrite sim_to_unconfirmed.
-  destruct (xto_unconfirmed e) as [w|]; cbn [option_map]; [|destruct alph_unconv_aborts; reflexivity].
-  rewrite sim_is_attest. destruct (xis_attest w); [|reflexivity].
-  rewrite sim_validate_attest. destruct (xvalidate_attest w a); reflexivity.
-Qed.
-
-Lemma sim_handle_unconfirmed : forall tok evs idx,
-  W.handle_unconfirmed (abs_tok_fn tok) idx (map abs_event evs) = abs_hu (xhandle_unconfirmed tok idx evs).
-Proof.
-  intros tok evs. induction evs as [|e t IH]; intro idx; cbn [map W.handle_unconfirmed xhandle_unconfirmed]; [reflexivity|].
-  unfold abs_tok_fn at 1. rewrite sim_classify. destruct (xclassify (tok idx) e) as [u| | |]; cbn [abs_cls]; try reflexivity.
-  - rewrite IH. destruct (xhandle_unconfirmed tok (idx + 1) t); reflexivity.
-  - apply IH.
-Qed.
-
-Lemma sim_page_loop : forall pg tok count fuel k from acc,
-  W.page_loop (abs_pg pg) (abs_tok_fn tok) fuel k from count (map abs_u acc) = abs_poll (xpage_loop pg tok fuel k from count acc).
-Proof.
-  intros pg tok count. induction fuel as [|f IH]; intros k from acc; cbn [W.page_loop xpage_loop]; [reflexivity|].
-  unfold abs_pg at 1. destruct (pg k from) as [|evs next]; cbn [abs_page]; [reflexivity|].
-  rewrite sim_handle_unconfirmed. destruct (xhandle_unconfirmed tok from evs) as [l| |]; cbn [abs_hu]; try reflexivity.
-  rewrite <- map_app. destruct (alph_page_exit next count); [reflexivity|apply IH].
-Qed.
-
-Lemma sim_poll : forall cnt pg tok from, W.poll cnt (abs_pg pg) (abs_tok_fn tok) from = abs_poll (xpoll cnt pg tok from).
-Proof.
-  intros cnt pg tok from. unfold W.poll, xpoll. destruct cnt as [count|]; [|reflexivity].
-  destruct (count =? from); [reflexivity|]. apply (sim_page_loop pg tok count _ 0%nat from []).
-Qed.
-
-(* ================================================================== 1c. simulation: the event loop *)
-Definition abs_conf (x : xuevent * W.header) : W.uevent * W.header := (abs_u (fst x), snd x).
-Definition abs_blk (r : xblk_res) : W.blk_res := match r with XBErr => W.BErr | XBOk k conf => W.BOk (option_map abs_pblock k) (map abs_conf conf) end.
-
-Lemma sim_add_event : forall p u, W.add_event (map abs_pblock p) (abs_u u) = map abs_pblock (xadd_event p u).
-Proof.
-  intros p u. induction p as [|b t IH]; cbn [map W.add_event xadd_event]; [reflexivity|].
-  change (W.pb_hash (abs_pblock b)) with (xpb_hash b). change (W.e_block (W.u_ev (abs_u u))) with (x_block (xu_ev u)).
-  destruct (xpb_hash b =? x_block (xu_ev u)); cbn [map].
-  - unfold abs_pblock. cbn [xpb_hash xpb_hdr xpb_evs W.pb_hdr W.pb_evs]. rewrite map_app. reflexivity.
-  - rewrite IH. reflexivity.
-Qed.
-
-Lemma sim_add_batch : forall l p, W.add_batch (map abs_pblock p) (map abs_u l) = map abs_pblock (xadd_batch p l).
-Proof.
-  unfold W.add_batch, xadd_batch. induction l as [|u l IH]; intro p; cbn [map fold_left]; [reflexivity|].
-  rewrite sim_add_event. apply IH.
-Qed.
-
-Lemma filter_map_comm : forall {A B} (g : A -> B) (f : B -> bool) (l : list A), filter f (map g l) = map g (filter (fun x => f (g x)) l).
-Proof.
-  intros A B g f l. induction l as [|x l IH]; [reflexivity|]. cbn [map filter]. destruct (f (g x)); cbn [map]; rewrite IH; reflexivity.
-Qed.
-
-Lemma sim_process_block : forall mn height now mc hd b,
-  W.process_block mn height now mc hd (abs_pblock b) = abs_blk (xprocess_block mn height now mc hd b).
-Proof.
-  intros mn height now mc hd b. unfold W.process_block, xprocess_block.
-  change (W.pb_hash (abs_pblock b)) with (xpb_hash b). change (W.pb_hdr (abs_pblock b)) with (xpb_hdr b).
-  change (W.pb_evs (abs_pblock b)) with (map abs_u (xpb_evs b)).
-  destruct (mc (xpb_hash b)) as [canon|]; [|reflexivity].
-  destruct (match xpb_hdr b with Some h => Some h | None => hd (xpb_hash b) end) as [h|]; [|reflexivity].
-  cbv zeta. rewrite !filter_map_comm. cbn [abs_blk]. f_equal.
-  - change (fun x => negb (W.confirmed mn (W.u_msg (abs_u x)) h now height)) with (fun u => negb (xconfirmed mn (xu_msg u) h now height)).
-    destruct (filter (fun u => negb (xconfirmed mn (xu_msg u) h now height)) (xpb_evs b)) as [|x r]; reflexivity.
-  - destruct canon; [|reflexivity]. rewrite !map_map. reflexivity.
-Qed.
-
-Lemma sim_process_blocks : forall mn height now mc hd p,
-  W.process_blocks mn height now mc hd (map abs_pblock p) =
-  option_map (fun r => (map abs_pblock (fst r), map abs_conf (snd r))) (xprocess_blocks mn height now mc hd p).
-Proof.
-  intros mn height now mc hd p. induction p as [|b t IH]; cbn [map W.process_blocks xprocess_blocks]; [reflexivity|].
-  rewrite sim_process_block. destruct (xprocess_block mn height now mc hd b) as [|k c]; cbn [abs_blk]; [reflexivity|].
-  rewrite IH. destruct (xprocess_blocks mn height now mc hd t) as [[p' c']|]; cbn [option_map fst snd]; [|reflexivity].
-  rewrite map_app. destruct k; reflexivity.
-Qed.
-
-Lemma abs_fwd_mk : forall u h, abs_fwd (mkxfwd (xu_ev u) (xu_msg u) (xu_chain u) h) = W.mkfwd (abs_u u) h.
-Proof. reflexivity. Qed.
-
-Lemma sim_handle_confirmed : forall bridge conf,
-  W.handle_confirmed (enc_id bridge) (map abs_conf conf) =
-  (map abs_fwd (fst (xhandle_confirmed bridge conf)), snd (xhandle_confirmed bridge conf)).
-Proof.
-  intros bridge conf. induction conf as [|[u h] t IH]; cbn [map W.handle_confirmed xhandle_confirmed]; [reflexivity|].
-  unfold abs_conf at 1. cbn [fst snd]. change (W.e_index (W.u_ev (abs_u u))) with (x_index (xu_ev u)).
-  destruct (x_index (xu_ev u) =? alph_wm_event_index); [|reflexivity].
-  rewrite IH. destruct (xhandle_confirmed bridge t) as [f e]. cbn [fst snd].
-  change (W.m_sender (W.u_msg (abs_u u))) with (enc_id (C.w_sender (xu_msg u))). rewrite enc_id_eqb.
-  destruct (bytes_eqb (C.w_sender (xu_msg u)) bridge); reflexivity.
-Qed.
-
-(* ================================================================== 1d. simulation: re-observation *)
-Definition abs_gx (txid : bytes) (x : xtevent * xuevent * W.header) : W.tevent * W.uevent * W.header :=
-  (abs_tevent txid (fst (fst x)), abs_u (snd (fst x)), snd x).
-Definition abs_ge (txid : bytes) (r : xge_res) : W.ge_res :=
-  match r with XGeErr => W.GeErr | XGePanic => W.GePanic | XGeOk l => W.GeOk (map (abs_gx txid) l) end.
-
-Lemma abs_ge_cons : forall txid x r, W.ge_cons (abs_gx txid x) (abs_ge txid r) = abs_ge txid (xge_cons x r).
-Proof. intros txid x r. destruct r; reflexivity. Qed.
-
-Lemma sim_gov_events : forall c txid blk hd tok evs pos,
-  W.gov_events (abs_cfg c) blk hd (abs_tok_fn tok) pos (map (abs_tevent txid) evs) = abs_ge txid (xgov_events c txid blk hd tok pos evs).
-Proof.
-  intros c txid blk hd tok evs. induction evs as [|te t IH]; intro pos; cbn [map W.gov_events xgov_events]; [reflexivity|].
-  cbv zeta. rewrite IH.
-  change (W.e_index (W.t_ev (abs_tevent txid te))) with (x_index (with_txid txid (xt_ev te))).
-  change (W.t_addr (abs_tevent txid te)) with (xt_addr te). change (W.c_gov (abs_cfg c)) with (xc_gov c).
-  change (W.e_block (W.t_ev (abs_tevent txid te))) with (x_block (with_txid txid (xt_ev te))).
-  change (W.e_conv (W.t_ev (abs_tevent txid te))) with (option_map abs_msg (conv (with_txid txid (xt_ev te)))).
-  destruct (negb (x_index (with_txid txid (xt_ev te)) =? alph_wm_event_index)); [reflexivity|].
-  destruct (alph_reobs_addr_filter && negb (xt_addr te =? xc_gov c)); [reflexivity|].
-  destruct (alph_reobs_block_filter && negb (x_block (with_txid txid (xt_ev te)) =? blk)); [reflexivity|].
-  destruct (hd (x_block (with_txid txid (xt_ev te)))) as [h|]; [|reflexivity].
-  destruct (conv (with_txid txid (xt_ev te))) as [w|]; cbn [option_map]; [|reflexivity].
-  rewrite sim_is_attest. destruct (xis_attest w).
-  - unfold abs_tok_fn at 1. rewrite sim_validate_attest. destruct (xvalidate_attest w (tok pos)) as [ti| |]; cbn [abs_va]; try reflexivity.
-    rewrite <- abs_ge_cons. reflexivity.
-  - rewrite <- abs_ge_cons. reflexivity.
-Qed.
-
-(* what getGovernanceEventsByTxId returns: every element carries the conversion of its fields under the request's tx id *)
-Definition gov_ok (txid : bytes) (x : xtevent * xuevent * W.header) : Prop :=
-  let '(te, u, h) := x in
-  xu_ev u = with_txid txid (xt_ev te) /\ conv (xu_ev u) = Some (xu_msg u) /\ x_index (xu_ev u) = alph_wm_event_index.
-
-Lemma xge_cons_ok : forall txid x r l, gov_ok txid x -> (forall l', r = XGeOk l' -> Forall (gov_ok txid) l') -> xge_cons x r = XGeOk l -> Forall (gov_ok txid) l.
-Proof.
-  intros txid x r l Hx Hr H. destruct r as [| |l']; try discriminate H. cbn [xge_cons] in H. injection H as <-.
-  constructor; [exact Hx|apply Hr; reflexivity].
-Qed.
-
-Lemma xgov_events_ok : forall c txid blk hd tok evs pos l, xgov_events c txid blk hd tok pos evs = XGeOk l -> Forall (gov_ok txid) l.
-Proof.
-  intros c txid blk hd tok evs. induction evs as [|te t IH]; intros pos l H; cbn [xgov_events] in H.
-  - injection H as <-. constructor.
-  - cbv zeta in H.
-    destruct (negb (x_index (with_txid txid (xt_ev te)) =? alph_wm_event_index)) eqn:EI; [eapply IH; exact H|].
-    destruct (alph_reobs_addr_filter && negb (xt_addr te =? xc_gov c)); [eapply IH; exact H|].
-    destruct (alph_reobs_block_filter && negb (x_block (with_txid txid (xt_ev te)) =? blk)); [eapply IH; exact H|].
-    destruct (hd (x_block (with_txid txid (xt_ev te)))) as [h|]; [|discriminate H].
-    destruct (conv (with_txid txid (xt_ev te))) as [w|] eqn:Cv; [|discriminate H].
-    apply negb_false_iff in EI. apply Z.eqb_eq in EI.
-    destruct (xis_attest w).
-    + destruct (xvalidate_attest w (tok pos)) as [ti| |]; [|eapply IH; exact H|discriminate H].
-      eapply xge_cons_ok; [|intros l' E; eapply IH; exact E|exact H]. cbn [gov_ok xu_ev xu_msg]. auto.
-    + eapply xge_cons_ok; [|intros l' E; eapply IH; exact E|exact H]. cbn [gov_ok xu_ev xu_msg]. auto.
-Qed.
-
-Lemma with_txid_fields : forall txid e, x_fields (with_txid txid e) = x_fields e.
-Proof. reflexivity. Qed.
-
-(* the second conversion in handleGovernanceMessages cannot fail: it converts the same fields with the same tx id *)
-Lemma xhandle_gov_spec : forall txid bridge l, Forall (gov_ok txid) l ->
-  xhandle_gov bridge l =
-  map (fun x => mkxfwd (xu_ev (snd (fst x))) (xu_msg (snd (fst x))) (xu_chain (snd (fst x))) (snd x))
-      (filter (fun x => bytes_eqb (C.w_sender (xu_msg (snd (fst x)))) bridge) l).
-Proof.
-  intros txid bridge l H. induction H as [|[[te u] h] t (E & Cv & _) Ht IH]; [reflexivity|].
-  cbn [xhandle_gov filter fst snd]. unfold conv in Cv. rewrite E in Cv. cbn [x_fields x_txid with_txid] in Cv.
-  rewrite E. cbn [x_txid with_txid].
-  destruct (C.to_wormhole_message (x_fields (xt_ev te)) txid) as [w|err]; [|discriminate Cv]. injection Cv as ->.
-  rewrite <- E. destruct (bytes_eqb (C.w_sender (xu_msg u)) bridge); cbn [map fst snd]; rewrite IH; reflexivity.
-Qed.
-
-Lemma Forall_filter : forall {A} (P : A -> Prop) f (l : list A), Forall P l -> Forall P (filter f l).
-Proof.
-  intros A P f l H. apply Forall_forall. intros x Hx. apply filter_In in Hx as [Hx _]. rewrite Forall_forall in H. apply H. exact Hx.
-Qed.
-
-Lemma sim_reobserve : forall c r,
-  W.reobserve (abs_cfg c) (abs_reobs r) = (map abs_fwd (fst (xreobserve c r)), snd (xreobserve c r)).
-Proof.
-  intros c r. unfold W.reobserve, xreobserve.
-  change (W.r_chain (abs_reobs r)) with (xr_chain r). change (W.r_txlen (abs_reobs r)) with (Z.of_nat (length (xr_txhash r))).
-  change (W.r_status (abs_reobs r)) with (xr_status r). change (W.r_mc (abs_reobs r)) with (xr_mc r).
-  change (W.r_height (abs_reobs r)) with (xr_height r). change (W.r_now (abs_reobs r)) with (xr_now r).
-  change (W.r_hd (abs_reobs r)) with (xr_hd r). change (W.r_tok (abs_reobs r)) with (abs_tok_fn (xr_tok r)).
-  change (W.r_events (abs_reobs r)) with (option_map (map (abs_tevent (req_txid r))) (xr_events r)).
-  destruct (negb (xr_chain r =? alph_chain_id)); [reflexivity|].
-  destruct (negb (Z.of_nat (length (xr_txhash r)) =? alph_txid_len)); [reflexivity|].
-  destruct (xr_status r) as [[blk|]|]; try reflexivity.
-  destruct (xr_events r) as [evs|]; cbn [option_map]; [|reflexivity].
-  rewrite sim_gov_events.
-  destruct (xgov_events c (req_txid r) blk (xr_hd r) (xr_tok r) 0 evs) as [| |l] eqn:G; cbn [abs_ge]; try reflexivity.
-  destruct (xr_mc r) as [[|]|]; try reflexivity. destruct (xr_height r) as [height|]; [|reflexivity].
-  cbn [fst snd]. f_equal.
-  pose proof (xgov_events_ok _ _ _ _ _ _ _ _ G) as OK.
-  rewrite (xhandle_gov_spec (req_txid r)) by (apply Forall_filter; exact OK).
-  rewrite !filter_map_comm, !map_map.
-  change (W.c_mainnet (abs_cfg c)) with (xc_mainnet c). change (W.c_bridge (abs_cfg c)) with (enc_id (xc_bridge c)).
-  assert (F1 : forall x, W.reobs_confirmed (xc_mainnet c) (W.u_msg (snd (fst (abs_gx (req_txid r) x)))) (snd (abs_gx (req_txid r) x)) (xr_now r) height
-                         = xreobs_confirmed (xc_mainnet c) (xu_msg (snd (fst x))) (snd x) (xr_now r) height) by (intros [[te u] h]; reflexivity).
-  assert (F2 : forall x, (W.m_sender (W.u_msg (snd (fst (abs_gx (req_txid r) x)))) =? enc_id (xc_bridge c)) = bytes_eqb (C.w_sender (xu_msg (snd (fst x)))) (xc_bridge c)).
-  { intros [[te u] h]. cbn [abs_gx fst snd]. change (W.m_sender (W.u_msg (abs_u u))) with (enc_id (C.w_sender (xu_msg u))). apply enc_id_eqb. }
-  rewrite (filter_ext _ _ F1). rewrite (filter_ext _ _ F2). apply map_ext. intros [[te u] h]. reflexivity.
-Qed.
-
-(* ================================================================== 1e. simulation: steps and histories *)
-Lemma is_nil_map : forall {A B} (f : A -> B) l, W.is_nil (map f l) = W.is_nil l.
-Proof. intros A B f l. destruct l; reflexivity. Qed.
-
-Theorem sim_step : forall c s o,
-  W.step (abs_cfg c) (abs_state s) (abs_op o) = (abs_state (fst (xstep c s o)), abs_out (snd (xstep c s o))).
-Proof.
-  intros c s o. unfold W.step, xstep. change (W.w_dead (abs_state s)) with (x_dead s).
-  destruct (x_dead s) eqn:D; [reflexivity|].
-  destruct o as [cnt pg tok| |height now mc hd|r|]; cbn [abs_op].
-  - change (W.w_inflight (abs_state s)) with (option_map (map abs_u) (x_inflight s)).
-    destruct (x_inflight s) as [l0|] eqn:F; cbn [option_map]; [reflexivity|].
-    change (W.w_from (abs_state s)) with (x_from s).
-    change (fun k s0 => abs_page (pg k s0)) with (abs_pg pg). change (fun i => abs_ans (tok i)) with (abs_tok_fn tok).
-    rewrite sim_poll. destruct (xpoll cnt pg tok (x_from s)) as [|from' batch n| | |]; cbn [abs_poll fst snd]; try reflexivity;
-      unfold abs_state, W.die, xdie; cbn [x_from x_inflight x_pending x_enabled x_dead W.w_from W.w_inflight W.w_pending W.w_enabled W.w_dead]; rewrite ?F; reflexivity.
-  - change (W.w_inflight (abs_state s)) with (option_map (map abs_u) (x_inflight s)).
-    destruct (x_inflight s) as [l|] eqn:F; cbn [option_map fst snd]; [|reflexivity].
-    unfold abs_state. cbn [x_from x_inflight x_pending x_enabled x_dead option_map W.w_from W.w_pending W.w_enabled].
-    rewrite sim_add_batch, is_nil_map. reflexivity.
-  - change (W.w_pending (abs_state s)) with (map abs_pblock (x_pending s)). change (W.c_mainnet (abs_cfg c)) with (xc_mainnet c).
-    rewrite sim_process_blocks.
-    destruct (xprocess_blocks (xc_mainnet c) height now mc hd (x_pending s)) as [[p' conf]|]; cbn [option_map fst snd].
-    + change (W.c_bridge (abs_cfg c)) with (enc_id (xc_bridge c)). rewrite sim_handle_confirmed.
-      destruct (xhandle_confirmed (xc_bridge c) conf) as [f err]. cbn [fst snd]. rewrite is_nil_map. reflexivity.
-    + unfold abs_state, W.die, xdie; cbn [x_from x_inflight x_pending x_enabled x_dead W.w_from W.w_inflight W.w_pending W.w_enabled W.w_dead]. reflexivity.
-  - rewrite sim_reobserve. destruct (xreobserve c r) as [f fl]. cbn [fst snd]. destruct fl; reflexivity.
-  - reflexivity.
-Qed.
-
-Lemma sim_final : forall c ops s, WB.final (abs_cfg c) (abs_state s) (map abs_op ops) = abs_state (xfinal c s ops).
-Proof.
-  intros c ops. induction ops as [|o t IH]; intro s; cbn [map WB.final xfinal]; [reflexivity|]. rewrite sim_step. cbn [fst]. apply IH.
-Qed.
-
-Lemma sim_run : forall c ops s,
-  W.run (abs_cfg c) (abs_state s) (map abs_op ops) = (map abs_out (fst (xrun c s ops)), abs_state (snd (xrun c s ops))).
-Proof.
-  intros c ops. induction ops as [|o t IH]; intro s; cbn [map W.run xrun]; [reflexivity|].
-  rewrite sim_step. destruct (xstep c s o) as [s' x]. cbn [fst snd]. rewrite IH. destruct (xrun c s' t) as [xs s'']. reflexivity.
-Qed.
-
-Lemma sim_batches : forall c ops s, WB.batches (abs_cfg c) (abs_state s) (map abs_op ops) = map abs_u (xbatches c s ops).
-Proof.
-  intros c ops. induction ops as [|o t IH]; intro s; cbn [map WB.batches xbatches]; [reflexivity|].
-  rewrite sim_step. cbn [fst snd]. rewrite IH, map_app. reflexivity.
-Qed.
-
-Lemma abs_init : forall from0, abs_state (xinit from0) = W.init from0.
-Proof. reflexivity. Qed.
-
-(* ================================================================== 2. the pipeline's own invariant: end-to-end fidelity *)
-Section Fidelity.
-Variable c : xcfg.
-(* provenance predicates on the node's RAW answers, arbitrary (as in C08) *)
-Variable EP : xevent -> Prop.          (* "an event of the configured governance contract, as the node reports it" *)
-Variable HP : Z -> W.header -> Prop.   (* "the header of that block" *)
-Variable AP : xmc_ans -> Prop.         (* "an answer of the node to the token-metadata multicall" *)
-
-Definition xop_ok (o : xop) : Prop :=
-  match o with
-  | XPoll cnt pg tok => (forall k s evs next, pg k s = XPage evs next -> Forall EP evs) /\ (forall i, AP (tok i))
-  | XTick height now mc hd => forall b h, hd b = Some h -> HP b h
-  | XReobs r => (forall evs, xr_events r = Some evs -> Forall (fun te => xt_addr te = xc_gov c -> EP (with_txid (req_txid r) (xt_ev te))) evs)
-                /\ (forall b h, xr_hd r b = Some h -> HP b h) /\ (forall i, AP (xr_tok r i))
-  | _ => True
-  end.
-
-(* an attestation carries what GetTokenInfo made of an answer of the node, and its payload parses to exactly that *)
-Definition xattest_ok (w : C.wmsg) (ch : option C.token_info) : Prop :=
-  xis_attest w = true -> exists t a, ch = Some t /\ C.parse_attest_token (C.w_payload w) = C.COk t /\ AP a /\ xget_token_info (C.t_id t) a = XTiOk t.
-
-Definition xugood (u : xuevent) : Prop :=
-  EP (xu_ev u) /\ xto_unconfirmed (xu_ev u) = Some (xu_msg u) /\ xattest_ok (xu_msg u) (xu_chain u).
-Definition xbgood (b : xpblock) : Prop :=
-  Forall (fun u => xugood u /\ x_block (xu_ev u) = xpb_hash b) (xpb_evs b) /\ (forall h, xpb_hdr b = Some h -> HP (xpb_hash b) h).
-Definition XInv (s : xstate) : Prop := (forall l, x_inflight s = Some l -> Forall xugood l) /\ Forall xbgood (x_pending s).
-
-Lemma XInv_init : forall from0, XInv (xinit from0).
-Proof. intro from0. split; [intros l H; discriminate H|constructor]. Qed.
-
-Lemma xvalidate_attest_ok : forall w a t, xvalidate_attest w a = XVaOk t ->
-  C.parse_attest_token (C.w_payload w) = C.COk t /\ xget_token_info (C.t_id t) a = XTiOk t.
-Proof.
-  intros w a t. unfold xvalidate_attest. destruct (C.parse_attest_token (C.w_payload w)) as [ti|]; [|discriminate].
-  destruct (xget_token_info (C.t_id ti) a) as [t'| |] eqn:G; try discriminate.
-  destruct (xtokinfo_eqb ti t') eqn:E; [|discriminate]. intro H. injection H as <-.
-  apply xtokinfo_eqb_eq in E. subst t'. split; [reflexivity|exact G].
-Qed.
-
-Lemma xclassify_keep : forall a e u, EP e -> AP a -> xclassify a e = XKeep u -> xugood u /\ xu_ev u = e.
-Proof.
-  intros a e u He Ha. unfold xclassify. destruct (xto_unconfirmed e) as [w|] eqn:T; [|destruct alph_unconv_aborts; discriminate].
-  destruct (xis_attest w) eqn:A.
-  - destruct (xvalidate_attest w a) as [t| |] eqn:V; try discriminate. intro H. injection H as <-.
-    apply xvalidate_attest_ok in V as [V1 V2]. unfold xugood. cbn [xu_ev xu_msg xu_chain]. repeat apply conj; auto.
-    intros _. exists t, a. auto.
-  - intro H. injection H as <-. unfold xugood. cbn [xu_ev xu_msg xu_chain]. repeat apply conj; auto.
-    intro A'. rewrite A in A'. discriminate A'.
-Qed.
-
-Lemma xhandle_unconfirmed_good : forall tok evs idx l, Forall EP evs -> (forall i, AP (tok i)) ->
-  xhandle_unconfirmed tok idx evs = XHuOk l -> Forall xugood l.
-Proof.
-  intros tok evs. induction evs as [|e t IH]; intros idx l He Ha H; cbn [xhandle_unconfirmed] in H.
-  - injection H as <-. constructor.
-  - inversion He as [|e' t' He1 He2]; subst.
-    destruct (xclassify (tok idx) e) as [u| | |] eqn:K; try discriminate.
-    + destruct (xhandle_unconfirmed tok (idx + 1) t) as [l'| |] eqn:R; try discriminate. injection H as <-.
-      constructor; [apply (xclassify_keep _ _ _ He1 (Ha idx) K)|eapply IH; eauto].
-    + eapply IH; eauto.
-Qed.
-
-Lemma xpage_loop_good : forall pg tok count,
-  (forall k s evs next, pg k s = XPage evs next -> Forall EP evs) -> (forall i, AP (tok i)) ->
-  forall fuel k cur acc from' batch n, Forall xugood acc -> xpage_loop pg tok fuel k cur count acc = XPBatch from' batch n -> Forall xugood batch.
-Proof.
-  intros pg tok count Hp Ha. induction fuel as [|f IH]; intros k cur acc from' batch n Hacc H; [discriminate|].
-  cbn [xpage_loop] in H. destruct (pg k cur) as [|evs next] eqn:P; [discriminate|].
-  destruct (xhandle_unconfirmed tok cur evs) as [l| |] eqn:HU; try discriminate.
-  assert (G : Forall xugood (acc ++ l)).
-  { apply Forall_app. split; [exact Hacc|]. eapply xhandle_unconfirmed_good; [eapply Hp; exact P|exact Ha|exact HU]. }
-  destruct (alph_page_exit next count).
-  - injection H as <- <- <-. exact G.
-  - eapply IH; [exact G|exact H].
-Qed.
-
-Lemma xadd_event_good : forall p u, Forall xbgood p -> xugood u -> Forall xbgood (xadd_event p u).
-Proof.
-  intros p u Hp Hu. induction p as [|b t IH]; cbn [xadd_event].
-  - constructor; [|constructor]. split; cbn [xpb_evs xpb_hdr xpb_hash]; [|intros h H; discriminate H].
-    constructor; [split; [exact Hu|reflexivity]|constructor].
-  - inversion Hp as [|b' t' Hb Ht]; subst. destruct (xpb_hash b =? x_block (xu_ev u)) eqn:E.
-    + apply Z.eqb_eq in E. constructor; [|exact Ht]. destruct Hb as [Hb1 Hb2]. split; cbn [xpb_evs xpb_hdr xpb_hash]; [|exact Hb2].
-      apply Forall_app. split; [exact Hb1|]. constructor; [split; [exact Hu|symmetry; exact E]|constructor].
-    + constructor; [exact Hb|apply IH; exact Ht].
-Qed.
-
-Lemma xadd_batch_good : forall l p, Forall xbgood p -> Forall xugood l -> Forall xbgood (xadd_batch p l).
-Proof.
-  unfold xadd_batch. induction l as [|u l IH]; intros p Hp Hl; cbn [fold_left]; [exact Hp|].
-  inversion Hl; subst. apply IH; [apply xadd_event_good; assumption|assumption].
-Qed.
-
-Definition xcgood (height now : Z) (mc : Z -> option bool) (x : xuevent * W.header) : Prop :=
-  xugood (fst x) /\ HP (x_block (xu_ev (fst x))) (snd x) /\ mc (x_block (xu_ev (fst x))) = Some true /\
-  xconfirmed (xc_mainnet c) (xu_msg (fst x)) (snd x) now height = true.
-
-Lemma xprocess_block_good : forall height now mc hd b k conf,
-  (forall b h, hd b = Some h -> HP b h) -> xbgood b ->
-  xprocess_block (xc_mainnet c) height now mc hd b = XBOk k conf ->
-  (forall b', k = Some b' -> xbgood b') /\ Forall (xcgood height now mc) conf.
-Proof.
-  intros height now mc hd b k conf Hhd [Hb1 Hb2] H. unfold xprocess_block in H.
-  destruct (mc (xpb_hash b)) as [canon|] eqn:M; [|discriminate].
-  destruct (match xpb_hdr b with Some h => Some h | None => hd (xpb_hash b) end) as [h|] eqn:Hh; [|discriminate].
-  assert (HPh : HP (xpb_hash b) h).
-  { destruct (xpb_hdr b) as [h'|] eqn:P; [injection Hh as <-; apply Hb2; reflexivity|apply Hhd; exact Hh]. }
-  injection H as <- <-. split.
-  - intros b' Hk. destruct (filter _ (xpb_evs b)) as [|x r] eqn:F; [discriminate|]. injection Hk as <-.
-    split; cbn [xpb_evs xpb_hdr xpb_hash]; [|intros h' Hq; injection Hq as <-; exact HPh].
-    rewrite <- F. apply Forall_filter. exact Hb1.
-  - destruct canon; [|constructor]. apply Forall_forall. intros [u h'] Hx. apply in_map_iff in Hx as (u' & Hx & Hu').
-    injection Hx as <- <-. apply filter_In in Hu' as [Hu' Hc]. rewrite Forall_forall in Hb1. destruct (Hb1 _ Hu') as [G E].
-    unfold xcgood. cbn [fst snd]. rewrite E. auto.
-Qed.
-
-Lemma xprocess_blocks_good : forall height now mc hd p p' conf,
-  (forall b h, hd b = Some h -> HP b h) -> Forall xbgood p ->
-  xprocess_blocks (xc_mainnet c) height now mc hd p = Some (p', conf) ->
-  Forall xbgood p' /\ Forall (xcgood height now mc) conf.
-Proof.
-  intros height now mc hd p. induction p as [|b t IH]; intros p' conf Hhd Hp H; cbn [xprocess_blocks] in H.
-  - injection H as <- <-. split; constructor.
-  - inversion Hp as [|b0 t0 Hb Ht]; subst.
-    destruct (xprocess_block (xc_mainnet c) height now mc hd b) as [|k cf] eqn:B; [discriminate|].
-    destruct (xprocess_blocks (xc_mainnet c) height now mc hd t) as [[q cf']|] eqn:R; [|discriminate].
-    injection H as <- <-. destruct (IH _ _ Hhd Ht eq_refl) as [I1 I2].
-    destruct (xprocess_block_good _ _ _ _ _ _ _ Hhd Hb B) as [K1 K2]. split.
-    + destruct k as [b'|]; [constructor; [apply K1; reflexivity|exact I1]|exact I1].
-    + apply Forall_app. split; assumption.
-Qed.
-
-(* THE MESSAGE: exactly the conversion of ONE event's raw fields, handed over as toMessagePublication with the header of
-   that event's block, sender = the configured token bridge *)
-Definition faithful (f : xfwd) : Prop :=
-  EP (xf_ev f) /\ HP (x_block (xf_ev f)) (xf_hdr f) /\
-  x_index (xf_ev f) = alph_wm_event_index /\
-  C.to_wormhole_message (x_fields (xf_ev f)) (x_txid (xf_ev f)) = C.COk (xf_msg f) /\
-  C.w_sender (xf_msg f) = xc_bridge c /\
-  xf_pub f = C.to_message_publication (xf_msg f) (W.h_ts (xf_hdr f)) /\
-  xattest_ok (xf_msg f) (xf_chain f).
-
-Lemma xto_unconfirmed_some : forall e w, xto_unconfirmed e = Some w ->
-  x_index e = alph_wm_event_index /\ C.to_wormhole_message (x_fields e) (x_txid e) = C.COk w.
-Proof.
-  intros e w. unfold xto_unconfirmed, conv. destruct (x_index e =? alph_wm_event_index) eqn:E; [|discriminate].
-  apply Z.eqb_eq in E. destruct (C.to_wormhole_message (x_fields e) (x_txid e)) as [w'|]; [|discriminate].
-  intro H. injection H as <-. auto.
-Qed.
-
-Lemma xhandle_confirmed_faithful : forall height now mc conf, Forall (xcgood height now mc) conf ->
-  Forall faithful (fst (xhandle_confirmed (xc_bridge c) conf)) /\ snd (xhandle_confirmed (xc_bridge c) conf) = false.
-Proof.
-  intros height now mc conf. induction conf as [|[u h] t IH]; intro H; cbn [xhandle_confirmed]; [split; [constructor|reflexivity]|].
-  inversion H as [|x t' Hx Ht]; subst. destruct Hx as ((G1 & G2 & G3) & Hh & Hm & Hc). cbn [fst snd] in *.
-  apply xto_unconfirmed_some in G2 as [G2 G2']. rewrite G2, Z.eqb_refl.
-  destruct (IH Ht) as [IH1 IH2]. destruct (xhandle_confirmed (xc_bridge c) t) as [f e]. cbn [fst snd] in *.
-  destruct (bytes_eqb_spec (C.w_sender (xu_msg u)) (xc_bridge c)) as [S|S]; cbn [fst snd]; [|auto].
-  split; [|exact IH2]. constructor; [|exact IH1].
-  unfold faithful, mkxfwd. cbn [xf_ev xf_msg xf_hdr xf_chain xf_pub]. repeat apply conj; auto.
-Qed.
-
-(* ---- re-observation *)
-Definition xrgood (r : xreobs_in) (evs : list xtevent) (blk : Z) (x : xtevent * xuevent * W.header) : Prop :=
-  let '(te, u, h) := x in
-  In te evs /\ xt_addr te = xc_gov c /\ x_block (xu_ev u) = blk /\ xr_hd r blk = Some h /\ xattest_ok (xu_msg u) (xu_chain u).
-
-Lemma reobs_filters : alph_reobs_addr_filter = true /\ alph_reobs_block_filter = true /\ alph_reobs_wallclock = true.
-Proof. repeat split. Qed.
-
-Lemma xgov_events_good : forall r txid blk all evs pos l, (forall i, AP (xr_tok r i)) -> incl evs all ->
-  xgov_events c txid blk (xr_hd r) (xr_tok r) pos evs = XGeOk l -> Forall (xrgood r all blk) l.
-Proof.
-  intros r txid blk all evs. induction evs as [|te t IH]; intros pos l Ha Hi H; cbn [xgov_events] in H.
-  - injection H as <-. constructor.
-  - assert (Hi' : incl t all) by (intros x Hx; apply Hi; right; exact Hx).
-    assert (Hte : In te all) by (apply Hi; left; reflexivity).
-    cbv zeta in H. destruct reobs_filters as (FA & FB & _). rewrite FA, FB in H. cbn [andb] in H.
-    destruct (negb (x_index (with_txid txid (xt_ev te)) =? alph_wm_event_index)); [eapply IH; eauto|].
-    destruct (negb (xt_addr te =? xc_gov c)) eqn:EA; [eapply IH; eauto|].
-    destruct (negb (x_block (with_txid txid (xt_ev te)) =? blk)) eqn:EB; [eapply IH; eauto|].
-    apply negb_false_iff in EA, EB. apply Z.eqb_eq in EA, EB.
-    destruct (xr_hd r (x_block (with_txid txid (xt_ev te)))) as [h|] eqn:Hh; [|discriminate H].
-    destruct (conv (with_txid txid (xt_ev te))) as [w|]; [|discriminate H].
-    rewrite EB in Hh.
-    destruct (xis_attest w) eqn:A.
-    + destruct (xvalidate_attest w (xr_tok r pos)) as [ti| |] eqn:V; [|eapply IH; eauto|discriminate H].
-      destruct (xgov_events c txid blk (xr_hd r) (xr_tok r) (pos + 1) t) as [| |l'] eqn:R; try discriminate H.
-      cbn [xge_cons] in H. injection H as <-. constructor; [|eapply IH; eauto].
-      unfold xrgood. cbn [xu_ev xu_msg xu_chain]. repeat apply conj; auto.
-      intros _. apply xvalidate_attest_ok in V as [V1 V2]. exists ti, (xr_tok r pos). auto.
-    + destruct (xgov_events c txid blk (xr_hd r) (xr_tok r) (pos + 1) t) as [| |l'] eqn:R; try discriminate H.
-      cbn [xge_cons] in H. injection H as <-. constructor; [|eapply IH; eauto].
-      unfold xrgood. cbn [xu_ev xu_msg xu_chain]. repeat apply conj; auto.
-      intro A'. rewrite A in A'. discriminate A'.
-Qed.
-
-(* what a re-observation hands over: faithful, and the event is one the node listed for the REQUESTED transaction (32-byte
-   hash, hex-encoded) with the governance contract's address, in the block the transaction is confirmed in *)
-Definition reobs_from (r : xreobs_in) (f : xfwd) : Prop :=
-  length (xr_txhash r) = 32%nat /\ x_txid (xf_ev f) = C.to_hex (xr_txhash r) /\
-  xr_status r = Some (Some (x_block (xf_ev f))) /\ xr_mc r = Some true /\
-  exists te evs, xr_events r = Some evs /\ In te evs /\ xf_ev f = with_txid (req_txid r) (xt_ev te) /\ xt_addr te = xc_gov c.
-
-Lemma txid_len32 : alph_txid_len = 32.
-Proof. reflexivity. Qed.
-
-Lemma xreobserve_faithful : forall r, xop_ok (XReobs r) -> Forall (fun f => faithful f /\ reobs_from r f) (fst (xreobserve c r)).
-Proof.
-  intros r (He & Hh & Ha). unfold xreobserve.
-  destruct (negb (xr_chain r =? alph_chain_id)); [constructor|].
-  destruct (negb (Z.of_nat (length (xr_txhash r)) =? alph_txid_len)) eqn:EL; [constructor|].
-  apply negb_false_iff in EL. apply Z.eqb_eq in EL. rewrite txid_len32 in EL.
-  destruct (xr_status r) as [[blk|]|] eqn:St; try constructor. destruct (xr_events r) as [evs|] eqn:Ev; [|constructor].
-  destruct (xgov_events c (req_txid r) blk (xr_hd r) (xr_tok r) 0 evs) as [| |l] eqn:G; try constructor.
-  pose proof (xgov_events_ok _ _ _ _ _ _ _ _ G) as OK.
-  apply (xgov_events_good r (req_txid r) blk evs) in G; [|exact Ha|apply incl_refl].
-  destruct (xr_mc r) as [[|]|] eqn:Mc; try constructor. destruct (xr_height r) as [height|] eqn:Ht; [|constructor].
-  cbn [fst]. rewrite (xhandle_gov_spec (req_txid r)) by (apply Forall_filter; exact OK).
-  apply Forall_forall. intros f Hf. apply in_map_iff in Hf as ([[te u] h] & <- & Hx).
-  apply filter_In in Hx as [Hx Hs]. apply filter_In in Hx as [Hx _]. cbn [fst snd] in *.
-  rewrite Forall_forall in G, OK. specialize (G _ Hx). specialize (OK _ Hx). destruct G as (G1 & G2 & G3 & G4 & G5). destruct OK as (O1 & O2 & O3).
-  apply bytes_eqb_eq in Hs.
-  assert (J1 : EP (xu_ev u)). { specialize (He _ eq_refl). rewrite Forall_forall in He. rewrite O1. apply He; assumption. }
-  assert (Cv : C.to_wormhole_message (x_fields (xu_ev u)) (x_txid (xu_ev u)) = C.COk (xu_msg u)).
-  { unfold conv in O2. destruct (C.to_wormhole_message (x_fields (xu_ev u)) (x_txid (xu_ev u))) as [w|]; [|discriminate O2]. injection O2 as ->. reflexivity. }
-  split.
-  - unfold faithful, mkxfwd. cbn [xf_ev xf_msg xf_hdr xf_chain xf_pub]. rewrite G3. repeat apply conj; auto.
-  - unfold reobs_from, mkxfwd. cbn [xf_ev]. rewrite G3. repeat apply conj; auto; try lia.
-    + rewrite O1. reflexivity.
-    + exists te, evs. auto.
-Qed.
-
-(* ---- one step *)
-Definition xjust (o : xop) (f : xfwd) : Prop :=
-  faithful f /\ match o with XTick _ _ _ _ => True | XReobs r => reobs_from r f | _ => False end.
-
-Theorem xstep_good : forall s o, XInv s -> xop_ok o ->
-  XInv (fst (xstep c s o)) /\ Forall (xjust o) (xo_fwd (snd (xstep c s o))).
-Proof.
-  intros s o HI Hok. pose proof HI as [I1 I2]. unfold xstep. destruct (x_dead s) eqn:D; [split; [exact HI|constructor]|].
-  assert (Hdie : XInv (xdie s)) by (split; [exact I1|exact I2]).
-  destruct o as [cnt pg tok| |height now mc hd|r|].
-  - destruct (x_inflight s) as [l0|] eqn:F; [split; [exact HI|constructor]|].
-    destruct Hok as [Hp Ha].
-    destruct (xpoll cnt pg tok (x_from s)) as [|from' batch n| | |] eqn:P; cbn [fst snd xo_fwd xout0 xfail]; (split; [|constructor]); try (exact HI || exact Hdie).
-    split; cbn [x_inflight x_pending]; [|exact I2].
-    intros l Hl. injection Hl as <-. unfold xpoll in P. destruct cnt as [count|]; [|discriminate].
-    destruct (count =? x_from s); [discriminate|].
-    eapply xpage_loop_good; [exact Hp|exact Ha| |exact P]. constructor.
-  - destruct (x_inflight s) as [l|] eqn:F; cbn [fst snd xo_fwd xout0]; (split; [|constructor]); [|exact HI].
-    split; cbn [x_inflight x_pending]; [intros l' H; discriminate H|].
-    apply xadd_batch_good; [exact I2|apply (proj1 HI); exact F].
-  - destruct (xprocess_blocks (xc_mainnet c) height now mc hd (x_pending s)) as [[p' conf]|] eqn:R; [|split; [exact Hdie|constructor]].
-    destruct (xprocess_blocks_good _ _ _ _ _ _ _ Hok I2 R) as [G1 G2].
-    destruct (xhandle_confirmed_faithful height now mc conf G2) as [J1 J2].
-    destruct (xhandle_confirmed (xc_bridge c) conf) as [f err]. cbn [fst snd xo_fwd] in *. split.
-    + split; cbn [x_inflight x_pending]; assumption.
-    + eapply Forall_impl; [|exact J1]. intros a Ha. split; [exact Ha|exact I].
-  - pose proof (xreobserve_faithful r Hok) as J. destruct (xreobserve c r) as [f fl]. cbn [fst snd xo_fwd] in *. split.
-    + destruct fl; exact HI || exact Hdie.
-    + exact J.
-  - split; [exact Hdie|constructor].
-Qed.
-
-Lemma xall_fwds_good : forall ops s, XInv s -> Forall xop_ok ops -> Forall (fun x => xjust (fst x) (snd x)) (xall_fwds c s ops).
-Proof.
-  induction ops as [|o t IH]; intros s HI Hok; cbn [xall_fwds]; [constructor|].
-  inversion Hok as [|o' t' Ho Ht]; subst. destruct (xstep_good s o HI Ho) as [HI' J].
-  apply Forall_app. split; [|apply IH; assumption].
-  apply Forall_forall. intros [o' f] Hin. apply in_map_iff in Hin as (f' & E & Hin). injection E as <- <-.
-  rewrite Forall_forall in J. apply J. exact Hin.
-Qed.
-
-(* ---- the invariant is carried by the abstraction: the abstract watcher's invariant (C08) holds for the abstracted state *)
-Definition EPa (ce : W.cevent) : Prop := exists e, EP e /\ ce = abs_event e.
-Definition APa (a' : W.mc_ans) : Prop := exists a, AP a /\ a' = abs_ans a.
-
-Lemma abs_ugood : forall u, xugood u -> WB.ugood EPa APa (abs_u u).
-Proof.
-  intros u (G1 & G2 & G3). unfold WB.ugood. cbn [abs_u W.u_ev W.u_msg W.u_chain]. repeat apply conj.
-  - exists (xu_ev u). auto.
-  - rewrite sim_to_unconfirmed, G2. reflexivity.
-  - intro A. rewrite sim_is_attest in A. destruct (G3 A) as (t & a & E1 & E2 & E3 & E4).
-    exists (abs_tok t), (abs_ans a). rewrite E1. unfold abs_msg. cbn [W.m_tok option_map]. rewrite E2. repeat apply conj; auto.
-    + exists a. auto.
-    + change (W.ti_id (abs_tok t)) with (enc_id (C.t_id t)). rewrite sim_get_token_info, E4. reflexivity.
-Qed.
-
-Lemma abs_Inv : forall s, XInv s -> WB.Inv EPa HP APa (abs_state s).
-Proof.
-  intros s [I1 I2]. split.
-  - intros l' H. unfold abs_state in H. cbn [W.w_inflight] in H. destruct (x_inflight s) as [l|]; [|discriminate H].
-    cbn [option_map] in H. injection H as <-. apply Forall_forall. intros u' Hu. apply in_map_iff in Hu as (u & <- & Hu).
-    apply abs_ugood. specialize (I1 _ eq_refl). rewrite Forall_forall in I1. apply I1. exact Hu.
-  - unfold abs_state. cbn [W.w_pending]. apply Forall_forall. intros b' Hb. apply in_map_iff in Hb as (b & <- & Hb).
-    rewrite Forall_forall in I2. destruct (I2 _ Hb) as [B1 B2]. split; cbn [abs_pblock W.pb_evs W.pb_hdr W.pb_hash]; [|exact B2].
-    apply Forall_forall. intros u' Hu. apply in_map_iff in Hu as (u & <- & Hu). rewrite Forall_forall in B1. destruct (B1 _ Hu) as [G E].
-    split; [apply abs_ugood; exact G|exact E].
-Qed.
-
-Lemma abs_op_ok : forall o, xop_ok o -> WB.op_ok (abs_cfg c) EPa HP APa (abs_op o).
-Proof.
-  intros o H. destruct o as [cnt pg tok| |height now mc hd|r|]; cbn [abs_op WB.op_ok]; try exact I.
-  - destruct H as [Hp Ha]. split.
-    + intros k s evs' next E. destruct (pg k s) as [|evs n] eqn:P; cbn [abs_page] in E; [discriminate E|]. injection E as <- <-.
-      apply Forall_forall. intros e' He. apply in_map_iff in He as (e & <- & He). exists e. split; [|reflexivity].
-      specialize (Hp _ _ _ _ P). rewrite Forall_forall in Hp. apply Hp. exact He.
-    + intro i. exists (tok i). auto.
-  - exact H.
-  - destruct H as (He & Hh & Ha). repeat apply conj.
-    + intros evs' E. cbn [abs_reobs W.r_events] in E. destruct (xr_events r) as [evs|] eqn:Ev; [|discriminate E]. cbn [option_map] in E. injection E as <-.
-      apply Forall_forall. intros te' Hte. apply in_map_iff in Hte as (te & <- & Hte). cbn [abs_tevent W.t_addr W.t_ev abs_cfg W.c_gov].
-      intro A. exists (with_txid (req_txid r) (xt_ev te)). split; [|reflexivity].
-      specialize (He _ eq_refl). rewrite Forall_forall in He. apply He; assumption.
-    + exact Hh.
-    + intro i. exists (xr_tok r i). auto.
-Qed.
-
-(* END TO END, over every history: every message handed to the signer (either path) is the faithful conversion of one event
-   the node served, AND its abstraction is `justified` in the sense of C08 in the step that sends it *)
-Theorem pipeline_end_to_end : forall ops s, XInv s -> Forall xop_ok ops ->
-  Forall (fun x => xjust (fst x) (snd x) /\ WS.justified (abs_cfg c) EPa HP APa (abs_op (fst x)) (abs_fwd (snd x))) (xall_fwds c s ops).
-Proof.
-  induction ops as [|o t IH]; intros s HI Hok; cbn [xall_fwds]; [constructor|].
-  inversion Hok as [|o' t' Ho Ht]; subst. destruct (xstep_good s o HI Ho) as [HI' J].
-  pose proof (WS.step_just (abs_cfg c) EPa HP APa (abs_state s) (abs_op o) (abs_Inv s HI) (abs_op_ok o Ho)) as JA.
-  rewrite sim_step in JA. cbn [snd abs_out W.o_fwd] in JA.
-  apply Forall_app. split; [|apply IH; assumption].
-  apply Forall_forall. intros [o' f] Hin. apply in_map_iff in Hin as (f' & E & Hin). injection E as <- <-. cbn [fst snd].
-  rewrite Forall_forall in J, JA. split; [apply J; exact Hin|]. apply JA. apply in_map. exact Hin.
-Qed.
-
-End Fidelity.
 
 (* ================================================================== 3. per-event independence through the conversion step *)
 Lemma xshape_test_same : forall rs i, xshape_test rs i i <> XShPanic.
@@ -823,16 +74,6 @@ Lemma xkeep_from_one_event : forall tok a e b idx,
 Proof. intros. rewrite xkeep_from_app. cbn [xkeep_from]. reflexivity. Qed.
 
 (* the REAL rejection predicate: the event index is not the WormholeMessage index, or ToWormholeMessage rejects the fields *)
-Definition unfit (e : xevent) : Prop :=
-  x_index e <> alph_wm_event_index \/ exists err, C.to_wormhole_message (x_fields e) (x_txid e) = C.CErr err.
-
-Lemma unfit_unconv : forall e, unfit e -> xto_unconfirmed e = None.
-Proof.
-  intros e [H|[err H]]; unfold xto_unconfirmed, conv.
-  - destruct (Z.eqb_spec (x_index e) alph_wm_event_index); [contradiction|reflexivity].
-  - rewrite H. destruct (x_index e =? alph_wm_event_index); reflexivity.
-Qed.
-
 Lemma xkeep1_unfit : forall a e, unfit e -> xkeep1 a e = [].
 Proof. intros a e H. unfold xkeep1, xclassify. rewrite (unfit_unconv e H), WP.unconv_skipped. reflexivity. Qed.
 
@@ -1014,155 +255,3 @@ Proof.
 Qed.
 
 End XPartition.
-
-(* exactly-once on the polling path is preserved by the composition: for EVERY predicate p of the abstract watcher's events
-   (so every predicate of uid, block, level, sender, payload id, attested token), along every history of the composed watcher
-   the p-events forwarded by height ticks plus those still held never exceed the p-events fetched in batches *)
-Definition xheld (s : xstate) : list xuevent := flat_map xpb_evs (x_pending s) ++ match x_inflight s with Some l => l | None => [] end.
-Definition xfwd_u (f : xfwd) : xuevent := {| xu_ev := xf_ev f; xu_msg := xf_msg f; xu_chain := xf_chain f |}.
-Definition xtick_fwd (o : xop) (x : xout) : list xuevent := match o with XTick _ _ _ _ => map xfwd_u (xo_fwd x) | _ => [] end.
-Fixpoint xtick_fwds (c : xcfg) (s : xstate) (ops : list xop) : list xuevent :=
-  match ops with [] => [] | o :: t => xtick_fwd o (snd (xstep c s o)) ++ xtick_fwds c (fst (xstep c s o)) t end.
-
-Lemma sim_tick_fwds : forall c ops s, WB.tick_fwds (abs_cfg c) (abs_state s) (map abs_op ops) = map abs_u (xtick_fwds c s ops).
-Proof.
-  intros c ops. induction ops as [|o t IH]; intro s; cbn [map WB.tick_fwds xtick_fwds]; [reflexivity|].
-  rewrite sim_step. cbn [fst snd]. rewrite IH, map_app. f_equal.
-  destruct o; cbn [abs_op WB.tick_fwd xtick_fwd map]; try reflexivity. cbn [abs_out W.o_fwd]. rewrite !map_map. reflexivity.
-Qed.
-
-Lemma sim_held : forall s, WB.held (abs_state s) = map abs_u (xheld s).
-Proof.
-  intro s. unfold WB.held, xheld, WB.plist, abs_state. cbn [W.w_pending W.w_inflight]. rewrite map_app. f_equal.
-  - induction (x_pending s) as [|b t IH]; [reflexivity|]. cbn [map flat_map]. rewrite map_app, IH. reflexivity.
-  - destruct (x_inflight s); reflexivity.
-Qed.
-
-Lemma cnt_map : forall p l, WB.cnt p (map abs_u l) = length (filter (fun u => p (abs_u u)) l).
-Proof. intros p l. unfold WB.cnt. rewrite filter_map_comm, map_length. reflexivity. Qed.
-
-Theorem pipeline_at_most_once : forall c (p : W.uevent -> bool) ops from0,
-  let n := fun l => length (filter (fun u => p (abs_u u)) l) in
-  (n (xtick_fwds c (xinit from0) ops) + n (xheld (xfinal c (xinit from0) ops)) <= n (xbatches c (xinit from0) ops))%nat.
-Proof.
-  intros c p ops from0. cbv zeta.
-  pose proof (WB.forwarded_at_most_fetched (abs_cfg c) p (map abs_op ops) (abs_state (xinit from0))) as H.
-  rewrite sim_tick_fwds, sim_final, sim_held, sim_batches, !cnt_map in H.
-  change (WB.held (abs_state (xinit from0))) with (@nil W.uevent) in H. cbn [WB.cnt filter length] in H. lia.
-Qed.
-
-(* ================================================================== 4. reading a faithful message; attestations *)
-(* field by field: the message carries exactly the values the event's raw fields denote, the block timestamp in whole
-   seconds (+ the millisecond remainder as nanoseconds), the Alephium chain id and the hash of the event's tx id *)
-Theorem faithful_message_fields : forall c EP HP AP f, faithful c EP HP AP f -> 0 <= W.h_ts (xf_hdr f) ->
-  let m := xf_pub f in
-  exists s0 s1 s2 s3 s4 s5 nonce,
-    x_fields (xf_ev f) = [C.VByteVec Ty.bytevec s0; C.VU256 Ty.u256 s1; C.VU256 Ty.u256 s2;
-                          C.VByteVec Ty.bytevec s3; C.VByteVec Ty.bytevec s4; C.VU256 Ty.u256 s5] /\
-    C.hex_decode s0 = Some (m_eaddr m) /\ length (m_eaddr m) = 32%nat /\ m_eaddr m = xc_bridge c /\
-    C.parse_dec s1 = Some (m_tchain m) /\ 0 <= m_tchain m <= 65535 /\
-    C.parse_dec s2 = Some (m_seq m) /\ 0 <= m_seq m < 18446744073709551616 /\
-    C.hex_decode s3 = Some nonce /\ length nonce = 4%nat /\ m_nonce m = unbe nonce /\
-    C.hex_decode s4 = Some (m_payload m) /\
-    C.parse_dec s5 = Some (m_cl m) /\ 0 <= m_cl m <= 255 /\
-    m_echain m = 255 /\ m_tx m = C.hex_to_hash (x_txid (xf_ev f)) /\
-    m_ts m = W.h_ts (xf_hdr f) / 1000 /\ m_tns m = (W.h_ts (xf_hdr f) mod 1000) * 1000000.
-Proof.
-  intros c EP HP AP f (_ & _ & _ & Cv & Sd & Pb & _) Hts. cbv zeta. rewrite Pb.
-  destruct (CP.wm_accepts_only _ _ _ Cv) as (s0 & s1 & s2 & s3 & s4 & s5 & nonce & E & D0 & L0 & P1 & R1 & P2 & R2 & D3 & L3 & EN & D4 & P5 & R5 & ET).
-  pose proof (CP.mp_fields (xf_msg f) (W.h_ts (xf_hdr f))) as F. cbv zeta in F. destruct F as (F1 & F2 & F3 & F4 & F5 & F6 & F7 & F8).
-  pose proof (CP.mp_time_nonneg (xf_msg f) (W.h_ts (xf_hdr f)) Hts) as Tm. cbv zeta in Tm. destruct Tm as [T1 T2].
-  exists s0, s1, s2, s3, s4, s5, nonce. rewrite F1, F2, F3, F4, F5, F6, F7, F8, T1, T2, ET. repeat apply conj; auto; lia.
-Qed.
-
-(* on the re-observation path the tx hash of the message is the requested hash itself *)
-Theorem reobserved_tx_hash : forall c EP HP AP r f, faithful c EP HP AP f -> reobs_from c r f -> m_tx (xf_pub f) = xr_txhash r.
-Proof.
-  intros c EP HP AP r f (_ & _ & _ & Cv & _ & Pb & _) (L & Tx & _). rewrite Pb.
-  pose proof (CP.mp_fields (xf_msg f) (W.h_ts (xf_hdr f))) as F. cbv zeta in F. destruct F as (_ & _ & _ & _ & _ & _ & _ & F8). rewrite F8.
-  destruct (CP.wm_accepts_only _ _ _ Cv) as (s0 & s1 & s2 & s3 & s4 & s5 & nonce & _ & _ & _ & _ & _ & _ & _ & _ & _ & _ & _ & _ & _ & ET).
-  rewrite ET, Tx. apply CP.hex_to_hash_to_hex. exact L.
-Qed.
-
-(* what GetTokenInfo accepts (on the raw answers): the native token's constant answer, or three succeeded calls with exactly
-   one return each - two byte vectors and a U256 in 0..255 - whose NUL-trimmed bytes / value it returns with the requested id *)
-Theorem xget_token_info_spec : forall id a t, xget_token_info id a = XTiOk t ->
-  (id = alph_token_id /\ t = native_info) \/
-  (exists vs vn vd sb nb d, a = XMcRes [XOk [vs]; XOk [vn]; XOk [vd]] /\ C.to_bytevec vs = C.COk sb /\ C.to_bytevec vn = C.COk nb /\ C.to_uint8 vd = C.COk d /\
-     t = {| C.t_id := id; C.t_decimals := d; C.t_symbol := C.bytes_to_string sb; C.t_name := C.bytes_to_string nb |}).
-Proof.
-  intros id a t. unfold xget_token_info. destruct (bytes_eqb_spec id alph_token_id) as [E|E].
-  - intro H. injection H as <-. left. auto.
-  - destruct a as [|rs]; [discriminate|]. destruct rs as [|r0 [|r1 [|r2 [|r3 rest]]]]; cbn [length Nat.eqb negb]; try discriminate.
-    rewrite WP.tokinfo_tests_own.
-    unfold xshape_test. cbn [nth].
-    destruct r0 as [|[|v0 [|? ?]]]; cbn [xsucceeded negb]; try discriminate.
-    destruct r1 as [|[|v1 [|? ?]]]; cbn [xsucceeded negb]; try discriminate.
-    destruct r2 as [|[|v2 [|? ?]]]; cbn [xsucceeded negb]; try discriminate.
-    destruct (C.to_bytevec v0) as [sb|] eqn:B0; [|discriminate]. destruct (C.to_bytevec v1) as [nb|] eqn:B1; [|discriminate].
-    destruct (C.to_uint8 v2) as [d|] eqn:B2; [|discriminate]. intro H. injection H as <-. right. exists v0, v1, v2, sb, nb, d. auto.
-Qed.
-
-(* ATTESTATIONS END TO END: a forwarded attest-token message decodes (token id, decimals, symbol, name) to exactly what
-   GetTokenInfo made of an answer of the node about that token *)
-Theorem forwarded_attestation_equals_chain : forall c EP HP AP f, faithful c EP HP AP f -> xis_attest (xf_msg f) = true ->
-  exists t a, C.parse_attest_token (m_payload (xf_pub f)) = C.COk t /\ xf_chain f = Some t /\ AP a /\ xget_token_info (C.t_id t) a = XTiOk t.
-Proof.
-  intros c EP HP AP f (_ & _ & _ & _ & _ & Pb & At) A. destruct (At A) as (t & a & E1 & E2 & E3 & E4).
-  exists t, a. rewrite Pb. pose proof (CP.mp_fields (xf_msg f) (W.h_ts (xf_hdr f))) as F. cbv zeta in F.
-  destruct F as (_ & _ & _ & _ & _ & _ & F7 & _). rewrite F7. auto.
-Qed.
-
-(* ... composed with the contract side (C11): if the payload is the one token_bridge.ral builds for (id, decimals, symbol, name),
-   then the token contract's answer the watcher compared it with is exactly (id, decimals, trimmed symbol, trimmed name) *)
-Theorem forwarded_contract_attestation : forall c EP HP AP f id decimals symbol name nonce,
-  faithful c EP HP AP f -> xis_attest (xf_msg f) = true ->
-  C.attest_payload id go_chain_id_alephium decimals symbol name nonce = Some (m_payload (xf_pub f)) ->
-  exists a, AP a /\ xget_token_info id a =
-    XTiOk {| C.t_id := id; C.t_decimals := decimals; C.t_symbol := C.bytes_to_string symbol; C.t_name := C.bytes_to_string name |}.
-Proof.
-  intros c EP HP AP f id decimals symbol name nonce Hf A Hp.
-  destruct (forwarded_attestation_equals_chain c EP HP AP f Hf A) as (t & a & E1 & _ & E3 & E4).
-  apply CP.attest_payload_inv in Hp as (Ep & Li & Ls & Ln & _ & Hc & Hd).
-  rewrite Ep, (CP.parse_attest_payload id go_chain_id_alephium decimals symbol name Li Ls Ln Hc Hd), Z.eqb_refl in E1. injection E1 as <-.
-  exists a. auto.
-Qed.
-
-(* liveness carried over: an event pending in the composed watcher is forwarded at the first tick at which it is final *)
-Lemma in_map_abs_fwd : forall y l, In y (map abs_fwd l) -> exists f, In f l /\ abs_fwd f = y.
-Proof. intros y l H. apply in_map_iff in H as (f & E & H). exists f. auto. Qed.
-
-(* ================================================================== 5. glue with C11's acceptance / rejection theorems *)
-(* C11's rejection cases are `unfit`: values outside the ranges (any other fields), wrong field count *)
-Lemma rejected_values_unfit : forall e f0 s1 s2 f3 f4 s5,
-  x_fields e = [f0; C.VU256 Ty.u256 s1; C.VU256 Ty.u256 s2; f3; f4; C.VU256 Ty.u256 s5] ->
-  ~ CP.fits 16 (C.parse_dec s1) \/ ~ CP.fits 64 (C.parse_dec s2) \/ ~ CP.fits 8 (C.parse_dec s5) -> unfit e.
-Proof. intros e f0 s1 s2 f3 f4 s5 E H. right. rewrite E. apply CP.wm_rejects. exact H. Qed.
-
-Lemma wrong_count_unfit : forall e, length (x_fields e) <> 6%nat -> unfit e.
-Proof.
-  intros e H. right. exists C.EFieldCount. unfold C.to_wormhole_message. change go_wm_field_size with 6%nat.
-  destruct (Nat.eqb_spec (length (x_fields e)) 6); [contradiction|reflexivity].
-Qed.
-
-(* no forwarded message stems from an unfit event *)
-Lemma faithful_not_unfit : forall c EP HP AP f, faithful c EP HP AP f -> ~ unfit (xf_ev f).
-Proof. intros c EP HP AP f (_ & _ & Hi & Cv & _) [H|[err H]]; [contradiction|]. rewrite Cv in H. discriminate H. Qed.
-
-(* the event as the contract emits it and a node reports it (C11's event_fields): the forwarded message has exactly its values *)
-Theorem fitting_event_message : forall c EP HP AP f sender target sequence nonce payload level,
-  faithful c EP HP AP f -> x_fields (xf_ev f) = C.event_fields sender target sequence nonce payload level ->
-  length sender = 32%nat -> 0 <= target <= 65535 -> 0 <= sequence < 18446744073709551616 -> length nonce = 4%nat -> 0 <= level <= 255 ->
-  0 <= W.h_ts (xf_hdr f) ->
-  let m := xf_pub f in
-  m_eaddr m = sender /\ sender = xc_bridge c /\ m_tchain m = target /\ m_seq m = sequence /\ m_nonce m = unbe nonce /\ m_payload m = payload /\ m_cl m = level /\
-  m_echain m = 255 /\ m_tx m = C.hex_to_hash (x_txid (xf_ev f)) /\
-  m_ts m = W.h_ts (xf_hdr f) / 1000 /\ m_tns m = (W.h_ts (xf_hdr f) mod 1000) * 1000000.
-Proof.
-  intros c EP HP AP f sender target sequence nonce payload level (_ & _ & _ & Cv & Sd & Pb & _) E Ls Rt Rs Ln Rl Hts. cbv zeta.
-  rewrite E, (CP.wm_decodes sender target sequence nonce payload level (x_txid (xf_ev f)) Ls Rt Rs Ln Rl) in Cv. injection Cv as Cv.
-  rewrite Pb. pose proof (CP.mp_fields (xf_msg f) (W.h_ts (xf_hdr f))) as F. cbv zeta in F. destruct F as (F1 & F2 & F3 & F4 & F5 & F6 & F7 & F8).
-  pose proof (CP.mp_time_nonneg (xf_msg f) (W.h_ts (xf_hdr f)) Hts) as Tm. cbv zeta in Tm. destruct Tm as [T1 T2].
-  rewrite F1, F2, F3, F4, F5, F6, F7, F8, T1, T2, <- Sd, <- Cv. cbn [C.w_sender C.w_target C.w_seq C.w_nonce C.w_payload C.w_cl C.w_txid].
-  repeat apply conj; reflexivity.
-Qed.
